@@ -34,6 +34,12 @@ PROPS = {
     "C18": ("exploration", [("rel", 24000), ("san", 3000)], [("rel", 0.3), ("san", 0.3), ("dbg", 0.2), ("c2", 0.2)]),
     "C20": ("exploration", [("san", 2400), ("relpc", 1600)], [("san", 0.7), ("relpc", 0.3)]),
 }
+RULE_EXTRA = {
+    "C10": " Run indices 0-63 of every configuration enumerate all 8 enabled-feature masks x 32 feature values x 4 entry points.",
+    "C11": " Run indices 0-127 of every configuration sweep all 1025 month boundaries of the birthday range on both sides.",
+    "C13": " Run indices 0-583 of every configuration enumerate every sequence of length 1-3 over an alphabet of eight macro-operations (create, encode+decode, store+load, password operation, key derivation, free, enabling call, re-injection).",
+    "C04": " One run in six is a concurrent plan (2-3 tasks deriving keys at once under the seeded scheduler).",
+}
 REAL_VS_STUB = {
     "real_code": ["every function of /repo/src compiled from the current working tree (polyseed.c, lang.c, gf.c, storage.c, features.c, dependency.c, word lists)"],
     "simulated": ["randbytes", "pbkdf2_sha256 (keyed PRF stream, not PBKDF2)", "memzero (really zeroes, logged)", "u8_nfc / u8_nfkd (real utf8proc, output bounded to the phrase buffer)",
@@ -360,7 +366,7 @@ def main():
                         "evaluated after every operation" + ("; for C15 each history is additionally re-executed once per allocation request with exactly that request failing "
                         "(counted under faults.enumerated_single_faults, not as evaluations)" if prop == "C15" else "") +
                         ". A run is non-trivial if at least one constructor returned OK or an injected fault fired or a preemption occurred; distinct = distinct plan hashes"
-                        + (" per build configuration" if prop in ("C16", "C20") else "") + ".",
+                        + (" per build configuration" if prop in ("C16", "C20") else "") + "." + RULE_EXTRA.get(prop, ""),
                 "samples": samples or [{"note": "no non-trivial sample recorded"}],
                 "exhaustive": False,
                 "simulated_runs_per_hour": int(runs / sim_wall * 3600),
